@@ -48,6 +48,19 @@ def extract_inputs(model, ins):
     return [ex(v) for v in ins]
 
 
+def rebuild_inputs(ints, ins):
+    pos = [0]
+
+    def ex(v):
+        if isinstance(v, Arr):
+            n = len(v.flat())
+            r = ints[pos[0]:pos[0] + n]
+            pos[0] += n
+            return r
+        return [ex(x) for x in v]
+    return [ex(v) for v in ins]
+
+
 def analyze(args):
     case, res, timeout_s = args
     out = dict(id=case["id"], status=None, queries=[], mism=[], cex=None, note="", secs=0.0,
@@ -96,11 +109,15 @@ def analyze(args):
         errs = it.errors
         if errs:
             bad = z3.Or(bad, *errs)
-        r = solve.check_sat(bad, list(pre) + list(it.assumptions), timeout_s=timeout_s, kind=case.get("kind", "bits"))
+        in_terms = []
+        for v in ins:
+            in_terms.extend(flat_elems(v))
+        r = solve.check_sat_forked(bad, list(pre) + list(it.assumptions), model_terms=in_terms,
+                                   timeout_s=timeout_s, kind=case.get("kind", "bits"))
         out["queries"].append(dict(verdict=r.verdict, tactic=r.tactic, secs=round(r.secs, 3), note=r.note))
         out["status"] = r.verdict
         if r.verdict == "sat" and r.model is not None:
-            out["cex"] = extract_inputs(r.model, ins)
+            out["cex"] = rebuild_inputs(r.model, ins)
         elif r.verdict == "sat":
             out["status"] = "unknown"
             out["note"] = "sat without model (cvc5)"
